@@ -11,6 +11,9 @@ pub mod layer_e;
 pub mod gl;
 pub mod c11;
 pub mod t2;
+pub mod c09;
+pub mod c15;
+pub mod c06;
 pub use boundary::*;
 pub use nec::*;
 pub use tree::*;
@@ -20,3 +23,6 @@ pub use layer_e::*;
 pub use gl::*;
 pub use c11::*;
 pub use t2::*;
+pub use c09::*;
+pub use c15::*;
+pub use c06::*;
